@@ -196,6 +196,7 @@ struct Execution {
 type Body = Box<dyn FnOnce(usize) -> Vec<String> + Send>;
 
 const HORIZON: usize = 256;
+const PATTERN_LEN: u64 = 5 * 1024 * 1024 + 123;
 
 fn run_schedule(bodies: Vec<Body>, prefix: &[usize]) -> Execution {
 	let n = bodies.len();
@@ -392,7 +393,7 @@ fn hexs(b: &[u8]) -> String {
 fn read_range_scenario(dir: &Path, name: &str, calls: Vec<Vec<(u64, u64)>>, bound: Option<usize>) -> Scenario {
 	let path = dir.join("pattern.bin");
 	if !path.exists() {
-		let data: Vec<u8> = (0..65536u64).map(pattern).collect();
+		let data: Vec<u8> = (0..PATTERN_LEN).map(pattern).collect();
 		std::fs::write(&path, data).unwrap();
 	}
 	let expected: Vec<Vec<String>> = calls.iter().map(|cs| cs.iter().map(|(o, l)| format!("ok {}", hexs(&(*o..*o + *l).map(pattern).collect::<Vec<u8>>()))).collect()).collect();
@@ -496,6 +497,11 @@ fn scenarios(dir: &Path, tier: Tier) -> Vec<Scenario> {
 	v.push(read_range_scenario(dir, "read_range 2 threads identical", vec![vec![(777, 20)], vec![(777, 20)]], None));
 	v.push(read_range_scenario(dir, "read_range 2 threads x 2 calls", vec![vec![(0, 8), (60000, 8)], vec![(30000, 8), (8, 8)]], None));
 	v.push(read_range_scenario(dir, "read_range 2 threads empty and large", vec![vec![(5, 0), (0, 40000)], vec![(65000, 536)]], None));
+	// sizes on both sides of plausible internal thresholds (4 KiB page, 64 KiB, 1 MiB, 2 MiB buffers)
+	v.push(read_range_scenario(dir, "read_range 2 threads 4 KiB and 64 KiB", vec![vec![(1, 4096), (8192, 4097)], vec![(65536, 65536), (100, 65537)]], None));
+	v.push(read_range_scenario(dir, "read_range 2 threads 1 MiB ranges", vec![vec![(0, 1 << 20)], vec![((1 << 20) + 7, (1 << 20) + 1)]], None));
+	v.push(read_range_scenario(dir, "read_range 2 threads 2 MiB+ ranges", vec![vec![(3, (2 << 20) + 5)], vec![(2 << 20, (3 << 20) + 100)]], None));
+	v.push(read_range_scenario(dir, "read_range 2 threads read_all-sized and tail", vec![vec![(0, PATTERN_LEN)], vec![(PATTERN_LEN - 10, 10)]], None));
 	v.push(read_range_scenario(dir, "read_range 3 threads", vec![vec![(0, 16)], vec![(20000, 16)], vec![(40000, 16)]], Some(2)));
 	if tier == Tier::Thorough {
 		v.push(read_range_scenario(dir, "read_range 3 threads x 2 calls", vec![vec![(0, 16), (50, 16)], vec![(20000, 16), (0, 16)], vec![(40000, 16), (20000, 4)]], Some(2)));
@@ -529,8 +535,9 @@ fn free_running_sample(dir: &Path) -> (u64, u64) {
 		hs.push(std::thread::spawn(move || {
 			let rt = tokio::runtime::Builder::new_current_thread().build().unwrap();
 			for i in 0..300u64 {
-				let o = (t * 4001 + i * 97) % 60000;
-				let l = 1 + (i % 64);
+				let big = i % 50 == 7;
+				let o = if big { (t * 40001) % (PATTERN_LEN - (1 << 21)) } else { (t * 4001 + i * 97) % 60000 };
+				let l = if big { (1 << 20) + t } else { 1 + (i % 64) };
 				let want: Vec<u8> = (o..o + l).map(pattern).collect();
 				match rt.block_on(reader.read_range(&ByteRange::new(o, l))) {
 					Ok(b) if b.as_slice() == want.as_slice() => {}
@@ -546,6 +553,51 @@ fn free_running_sample(dir: &Path) -> (u64, u64) {
 		let _ = h.join();
 	}
 	(total.load(Ordering::Relaxed), mism.load(Ordering::Relaxed))
+}
+
+/// Labelled sample, not exhaustive: 8 uncontrolled OS threads x 300 tile lookups spread over
+/// different blocks of one reader instance. A mismatch is a real witness (sound), absence of
+/// mismatches proves nothing. Returns (calls, mismatches, first mismatch).
+fn free_running_tile_sample(dir: &Path, kind: &str) -> (u64, u64, Option<String>) {
+	let sc = tile_scenario(dir, kind, "free", vec![vec![]], None);
+	let _ = sc;
+	let path = dir.join(format!("tiles.{kind}"));
+	let rt0 = tokio::runtime::Builder::new_current_thread().build().unwrap();
+	let reader: Arc<Box<dyn TilesReaderTrait>> = Arc::new(match kind {
+		"versatiles" => rt0.block_on(VersaTilesReader::open_path(&path)).unwrap().boxed(),
+		"pmtiles" => rt0.block_on(PMTilesReader::open_path(&path)).unwrap().boxed(),
+		_ => TarTilesReader::open_path(&path).unwrap().boxed(),
+	});
+	let coords: Vec<(u8, u32, u32, usize)> = vec![(0, 0, 0, 40), (9, 255, 5, 1500), (9, 256, 5, 30), (9, 256, 6, 2000), (9, 511, 511, 64), (3, 1, 2, 999)];
+	let mism = Arc::new(AtomicU64::new(0));
+	let total = Arc::new(AtomicU64::new(0));
+	let first: Arc<Mutex<Option<String>>> = Arc::new(Mutex::new(None));
+	let mut hs = vec![];
+	for t in 0..8usize {
+		let (reader, mism, total, first, coords) = (reader.clone(), mism.clone(), total.clone(), first.clone(), coords.clone());
+		hs.push(std::thread::spawn(move || {
+			let rt = tokio::runtime::Builder::new_current_thread().build().unwrap();
+			for i in 0..300usize {
+				let (z, x, y, len) = coords[(t + i * (t + 1)) % coords.len()];
+				let want = tile_payload(z, x, y, len);
+				let r = std::panic::catch_unwind(std::panic::AssertUnwindSafe(|| rt.block_on(reader.get_tile_data(&TileCoord3 { x, y, z }))));
+				let ok = matches!(&r, Ok(Ok(Some(b))) if b.as_slice() == want.as_slice());
+				if !ok {
+					mism.fetch_add(1, Ordering::Relaxed);
+					let mut f = first.lock().unwrap();
+					if f.is_none() {
+						*f = Some(format!("lookup ({z},{x},{y}) on thread {t} returned {}", match &r { Ok(Ok(Some(b))) => format!("other bytes: {}", hexs(b.as_slice())), Ok(Ok(None)) => "None".into(), Ok(Err(e)) => format!("Err({e})"), Err(_) => "a panic".into() }));
+					}
+				}
+				total.fetch_add(1, Ordering::Relaxed);
+			}
+		}));
+	}
+	for h in hs {
+		let _ = h.join();
+	}
+	let f = first.lock().unwrap().clone();
+	(total.load(Ordering::Relaxed), mism.load(Ordering::Relaxed), f)
 }
 
 fn check_exec(expected: &[Vec<String>]) -> impl Fn(&Execution) -> Option<String> + '_ {
@@ -637,7 +689,24 @@ fn run(ctx: &Ctx) {
 		ctx.sample(s);
 	}
 	let (total, mism) = free_running_sample(&dir);
-	ctx.extra("free_running_sample", json!({"note": "labelled sample, 16 uncontrolled OS threads x 300 read_range calls; informational, never decides the verdict", "calls": total, "mismatches": mism}));
+	ctx.extra("free_running_sample", json!({"note": "supplementary labelled sample, 16 uncontrolled OS threads x 300 read_range calls; a mismatch is reported (sound), silence proves nothing", "calls": total, "mismatches": mism}));
+	let mut tile_samples = vec![];
+	for kind in ["versatiles", "pmtiles", "tar"] {
+		let (calls, mism, first) = free_running_tile_sample(&dir, kind);
+		tile_samples.push(json!({"container": kind, "calls": calls, "mismatches": mism}));
+		if let Some(f) = first {
+			// a wrong answer under real concurrency is a real witness even though this run is only a sample
+			ctx.violation(
+				&format!("{kind}: free-running lookup returns other bytes than alone"),
+				&format!("free-running sample (8 OS threads x 300 lookups on one {kind} reader, not replayable step by step): {mism} of {calls} lookups wrong; first: {f}"),
+				json!({"scenario": format!("free-running {kind}"), "note": "supplementary sample; re-run ./check C13 quick"}),
+			);
+		}
+	}
+	ctx.extra("free_running_tile_sample", json!({"note": "supplementary labelled sample (sound, not exhaustive): finer-than-syscall races such as lock-free fast paths are outside the explorer's scheduling points", "runs": tile_samples}));
+	if mism > 0 {
+		ctx.violation("read_range: free-running read returns other bytes than alone", &format!("free-running sample: {mism} of {total} read_range calls wrong"), json!({"scenario": "free-running read_range"}));
+	}
 	ctx.extra("scenarios", json!(scs.len()));
 	ctx.extra("intercepted_syscalls", json!(INTERCEPTED.load(Ordering::Relaxed)));
 	ctx.exhaustive(all_exhaustive);
